@@ -17,7 +17,8 @@ FSet(fs) == { Filt(fs[k].p, fs[k].s, fs[k].x) : k \in 1..Len(fs) }
 ConfigOK(c, e) ==
     /\ e.verbose = c.verbose /\ e.vv = c.vv /\ e.color = c.color /\ e.sep = c.sep /\ e.lg = c.lg /\ e.ln = c.ln /\ e.ll = c.ll
     /\ e.ri = c.ri /\ e.rev = c.rev /\ e.crash = c.crash /\ e.rethrow = c.rethrow /\ e.shuffle = c.shuffle
-    /\ (c.shuffle => IF c.seed = 0 THEN e.seed > 0 ELSE e.seed = c.seed)
+    \* seed and repeat count are logged exactly, as the decimal text of the configured size_t value
+    /\ (c.shuffle => IF c.seed = <<>> THEN Canon(e.seed) # <<>> ELSE e.seed = c.seed)          \* no seed given: from the clock, > 0
     /\ e.repeat = c.repeat /\ e.out = c.out /\ e.pkg = c.pkg
     /\ FSet(e.gf) = GF(c) /\ FSet(e.nf) = NF(c)
     /\ ~e.help
@@ -25,7 +26,7 @@ OutKind(c) == CASE c.out = "junit" -> (IF c.verbose \/ c.vv THEN "junit+console"
                 [] c.out = "teamcity" -> "teamcity" [] OTHER -> "console"
 \* (the harness does not run the probe registry for repeat counts above 100: lvl2 false, nothing to compare)
 RunOK(c, e, p) ==
-    IF c.repeat > 100 THEN ~e.lvl2 ELSE
+    IF ~IsSmallNumber(c.repeat) THEN ~e.lvl2 ELSE
     /\ e.lvl2 /\ e.printed = "none"
     /\ e.outkind = OutKind(c) /\ (c.out = "junit" => e.outpkg = c.pkg)
     /\ Len(e.ran) = Len(p)
@@ -39,13 +40,14 @@ ObsOK(m, e, p) ==
     /\ Safe(e)
     /\ CASE m.k = "accept" -> e.acc /\ ConfigOK(m.cfg, e) /\ RunOK(m.cfg, e, p)
          [] m.k = "help" -> ~e.acc /\ e.help /\ e.printed = "help"
+         [] m.k = "invalid" -> ~e.acc                                   \* a value the help text declares invalid: rejected (Safe: usage or help, nothing runs)
          [] OTHER -> TRUE
 
 TInit == Start(<<>>) /\ l = 1 /\ probe = <<>> /\ obs = [acc |-> TRUE, printed |-> "none", ran |-> <<>>]
 TArgv == /\ Is("argv")
          /\ LET m == Meaning(E.tok) IN
               /\ (ObsOK(m, E, probe)) = TRUE
-              /\ argv' = E.tok /\ cfg' = m.cfg /\ status' = m.k /\ i' = 1 /\ steps' = 0
+              /\ argv' = E.tok /\ cfg' = m.cfg /\ status' = m.k /\ i' = 1 /\ steps' = 0 /\ inv' = (m.k = "invalid")
          /\ obs' = [acc |-> E.acc, printed |-> E.printed, ran |-> E.ran]
          /\ UNCHANGED probe
 TProbe == Is("probe") /\ probe' = E.tests /\ UNCHANGED <<vars, obs>>
@@ -55,14 +57,15 @@ Accepted == TLCGet("stats").diameter - 1 = Len(Tr)
 \* the safety clause as an invariant over the observed outcome of the last vector
 RejectedRunsNothing == ~obs.acc => (obs.printed \in {"usage", "help"} /\ \A k \in 1..Len(obs.ran) : obs.ran[k] = 0)
 HelpMeansHelp == status = "help" => (~obs.acc /\ obs.printed = "help")
-TInv == RejectedRunsNothing /\ HelpMeansHelp
+InvalidIsRejected == status = "invalid" => ~obs.acc
+TInv == RejectedRunsNothing /\ HelpMeansHelp /\ InvalidIsRejected
 
 \* diagnostics: the meaning of each vector, observations unbound
 PArgv == /\ Is("argv")
-         /\ LET m == Meaning(E.tok) IN argv' = E.tok /\ cfg' = m.cfg /\ status' = m.k /\ i' = 1 /\ steps' = 0
+         /\ LET m == Meaning(E.tok) IN argv' = E.tok /\ cfg' = m.cfg /\ status' = m.k /\ i' = 1 /\ steps' = 0 /\ inv' = (m.k = "invalid")
          /\ UNCHANGED <<probe, obs>>
 PSpec == TInit /\ [][PArgv \/ TProbe \/ TReset]_tvars
 Predict == (l > 1 /\ l - 1 >= atoi(IOEnv.FROM_LINE_N)) =>
               PrintT(<<"BEH", ToJson([line |-> l - 1, meaning |-> status, cfg |-> cfg,
-                                      runs |-> IF probe = <<>> THEN <<>> ELSE [k \in 1..Len(probe) |-> Runs(probe[k], cfg)]])>>)
+                                      runs |-> IF probe = <<>> \/ ~IsSmallNumber(cfg.repeat) THEN <<>> ELSE [k \in 1..Len(probe) |-> Runs(probe[k], cfg)]])>>)
 =============================================================================
